@@ -112,7 +112,7 @@ def sym_delta_seconds(ctx, name, max_days):
     return d * 86400 + h * 3600 + m * 60 + s
 
 
-def make_zone(ctx, key, anchor_ord, ntrans=1, max_days=400, kind="named"):
+def make_zone(ctx, key, anchor_ord, ntrans=1, max_days=400, kind="named", shape=None):
     """A zone with `ntrans` transitions placed relative to midnight of ordinal `anchor_ord`.
     Returns (tz, Ts, offs).  Offsets are arbitrary second-granular values; consecutive offsets
     differ (a transition that changes nothing is not a transition)."""
@@ -121,6 +121,10 @@ def make_zone(ctx, key, anchor_ord, ntrans=1, max_days=400, kind="named"):
     for i in range(ntrans):
         Ts.append(anchor_ord * 86400 + sym_delta_seconds(ctx, f"{key[-1]}T{i}", max_days))
         ctx.assume(offs[i] != offs[i + 1])
+    if shape == "gap":
+        ctx.assume(offs[1] > offs[0])
+    elif shape == "overlap":
+        ctx.assume(offs[1] < offs[0])
     for i in range(1, ntrans):
         ctx.assume(Ts[i] > Ts[i - 1])
     if kind == "native":
@@ -188,3 +192,28 @@ def sym_wall(ctx, p, ylo, yhi):
     s = ctx.int(p + "s", 0, 59)
     us = ctx.int(p + "us", 0, 999999)
     return y, m, d, h, mi, s, us
+
+
+def valid_source(ctx, kind, ylo, yhi, ntrans=1, shape=None, p="x", key="Verif/A"):
+    """a valid aware (or naive) DateTime and its contract data: (x, tz, Ts, offs, u_seconds, us)"""
+    P = ctx.P
+    y, m, d, h, mi, s, us = sym_wall(ctx, p, ylo, yhi)
+    w = cal.ymd2ord(y, m, d) * 86400 + cal.sod(h, mi, s)
+    if kind == "naive":
+        return P.DateTime(y, m, d, h, mi, s, us), None, [], [0], w, us
+    if kind == "utc":
+        return P.DateTime(y, m, d, h, mi, s, us, tzinfo=P.UTC), P.UTC, [], [0], w, us
+    if kind == "fixed":
+        off = sym_offset(ctx, p + "f")
+        tz = ctx.fixed_zone(off, "Verif/F" + p)
+        return P.DateTime(y, m, d, h, mi, s, us, tzinfo=tz), tz, [], [off], w - off, us
+    tz, Ts, offs = make_zone(ctx, key, cal.ymd2ord(y, m, d), ntrans, shape=shape)
+    fold = ctx.int(p + "fold", 0, 1)
+    w_out, off, nvalid = resolve_wall(w, Ts, offs, fold == 1)
+    ctx.assume(nvalid >= 1)                   # the wall time exists
+    ctx.assume(IMPLIES(nvalid == 1, fold == 0))   # fold is only set inside an overlap
+    x = P.DateTime(y, m, d, h, mi, s, us, tzinfo=tz, fold=fold)
+    ctx.reach("starts in overlap fold=0", AND(nvalid == 2, fold == 0))
+    return x, tz, Ts, offs, w - off, us
+
+
